@@ -41,7 +41,7 @@ func (e *specEnv) fail(f string, a ...interface{}) SV {
 
 func (x *Exec) newEnv(st *State, fr *Frame, binds map[string]SV) *specEnv {
 	f := fr
-	return &specEnv{x: x, st: st, old: f.entry, fr: f, binds: binds}
+	return &specEnv{x: x, st: st, old: f.entry, fr: f, binds: binds, loop: f.curLoop}
 }
 
 // evalClause evaluates a boolean clause to an SMT term.
@@ -84,11 +84,7 @@ func (e *specEnv) term(v SV) string {
 			return u.Ref
 		}
 	case SliceV:
-		if v.T != nil {
-			_, s := e.x.seqOf(e.st, u, v.T)
-			return s
-		}
-		return e.x.freeze(e.st, u)
+		return e.x.peek(e.st, u)
 	case IfaceV:
 		if u.Sym != "" {
 			return u.Sym
@@ -272,6 +268,12 @@ func (e *specEnv) deref(p SV) SV {
 		return SV{V: e.wrapTyped(e.x.pathGetTV(e.st, root, pv.Path), elem), T: elem}
 	case pv.Imm != nil:
 		return SV{V: e.wrapTyped(e.x.pathGetTV(e.st, *pv.Imm, pv.Path), elem), T: elem}
+	case pv.Nil && elem != nil:
+		// spec expressions are total: *nil is some unspecified value
+		sort := e.x.w.SortOf(elem)
+		if isStructLike(elem) {
+			return SV{V: e.wrapTyped(TV{sort, e.st.heapSelect(sort, "0")}, elem), T: elem}
+		}
 	}
 	return e.fail("dereference of nil in spec")
 }
@@ -287,6 +289,20 @@ func (e *specEnv) ident(name string) SV {
 		return v
 	}
 	fn := e.fr.fn
+	// a parameter that was reassigned: outside old() its current value counts
+	if e.st != e.old {
+		if nr, ok := e.fr.names[name]; ok {
+			if _, isParam := nr.v.(*ssa.Parameter); !isParam && !nr.addr {
+				for _, p := range fn.Params {
+					if p.Name() == name {
+						if pv, ok := e.fr.vals[nr.v]; ok {
+							return SV{V: pv, T: nr.v.Type()}
+						}
+					}
+				}
+			}
+		}
+	}
 	// parameters and free variables
 	for _, p := range fn.Params {
 		if p.Name() == name {
@@ -303,6 +319,18 @@ func (e *specEnv) ident(name string) SV {
 	if name == "iter" && e.loop != nil && e.loop.rangeIdx != nil {
 		i := e.x.toTV(e.st, e.fr.vals[e.loop.rangeIdx], e.loop.rangeIdx.Type())
 		return SV{V: TV{SInt, tAdd(i.E, "1")}}
+	}
+	// source-level names (debug info): the value most recently bound to the identifier
+	if nr, ok := e.fr.names[name]; ok {
+		if pv, ok := e.fr.vals[nr.v]; ok {
+			if nr.addr {
+				return e.deref(SV{V: pv, T: nr.v.Type()})
+			}
+			return SV{V: pv, T: nr.v.Type()}
+		}
+		if c, ok := nr.v.(*ssa.Const); ok {
+			return SV{V: e.x.constVal(e.st, c), T: c.Type()}
+		}
 	}
 	// named local variables: address-taken (Alloc) or loop-carried (Phi)
 	for _, b := range fn.Blocks {
@@ -612,6 +640,13 @@ func (e *specEnv) call(n *ast.CallExpr) SV {
 		}
 		rng := tAnd(tCmp("<=", lo, bv), tCmp("<", bv, hi))
 		if name == "forall" {
+			if pats := idxPatterns(body, bv); len(pats) > 0 {
+				var ps strings.Builder
+				for _, p := range pats {
+					ps.WriteString(" :pattern (" + p + ")")
+				}
+				return SV{V: TV{SBool, fmt.Sprintf("(forall ((%s Int)) (! %s%s))", bv, tImp(rng, body), ps.String())}}
+			}
 			return SV{V: TV{SBool, fmt.Sprintf("(forall ((%s Int)) %s)", bv, tImp(rng, body))}}
 		}
 		return SV{V: TV{SBool, fmt.Sprintf("(exists ((%s Int)) %s)", bv, tAnd(rng, body))}}
@@ -686,6 +721,33 @@ func (e *specEnv) call(n *ast.CallExpr) SV {
 		}
 		return SV{V: TV{SBool, "false"}}
 	}
+	if pd, ok := specPreds[name]; ok && pd.Expr != nil {
+		if len(n.Args) != len(pd.Params) {
+			return e.fail("pred %s expects %d arguments", name, len(pd.Params))
+		}
+		saved := map[string]SV{}
+		had := map[string]bool{}
+		if e.binds == nil {
+			e.binds = map[string]SV{}
+		}
+		vals := make([]SV, len(n.Args))
+		for i := range n.Args {
+			vals[i] = arg(i)
+		}
+		for i, pn := range pd.Params {
+			saved[pn], had[pn] = e.binds[pn]
+			e.binds[pn] = vals[i]
+		}
+		r := e.eval(pd.Expr)
+		for _, pn := range pd.Params {
+			if had[pn] {
+				e.binds[pn] = saved[pn]
+			} else {
+				delete(e.binds, pn)
+			}
+		}
+		return r
+	}
 	if sf, ok := specFuncs[name]; ok {
 		var args []SV
 		for i := range n.Args {
@@ -744,3 +806,47 @@ func constToTerm(c constant.Value) (string, bool) {
 }
 
 var _ = strings.TrimSpace
+
+// idxPatterns: E-matching triggers for a bounded quantifier: the sequence
+// index terms whose index is exactly the bound variable.
+func idxPatterns(body, bv string) []string {
+	var out []string
+	seen := map[string]bool{}
+	needle := " " + bv + ")"
+	for i := 0; i+len(needle) <= len(body); i++ {
+		if body[i:i+len(needle)] != needle {
+			continue
+		}
+		// walk back to the matching "("
+		depth := 0
+		j := i
+		for j >= 0 {
+			if body[j] == ')' {
+				depth++
+			} else if body[j] == '(' {
+				if depth == 0 {
+					break
+				}
+				depth--
+			}
+			j--
+		}
+		if j < 0 {
+			continue
+		}
+		term := body[j : i+len(needle)]
+		head := term[1:]
+		if sp := strings.IndexByte(head, ' '); sp > 0 {
+			head = head[:sp]
+		}
+		if strings.HasSuffix(head, "_idx") && !strings.Contains(term[:len(term)-len(needle)], bv) && !seen[term] &&
+			!strings.Contains(term, "(ite ") && !strings.Contains(term, "(forall ") {
+			seen[term] = true
+			out = append(out, term)
+		}
+	}
+	if len(out) > 3 {
+		out = out[:3]
+	}
+	return out
+}
